@@ -32,6 +32,7 @@ type interpreter struct {
 	prog               *ssa.Program
 	globals            map[*ssa.Global]*value
 	initState          map[*ssa.Package]int // 0 not run, 1 running, 2 done
+	splitInits         bool                 // nested package initialisers are initialised one by one (see ensureInit)
 	runtimeErrorString types.Type
 	px                 *pathExec
 	env                *Env
@@ -114,6 +115,12 @@ func (i *interpreter) ensureInit(pkg *ssa.Package) {
 		fmt.Printf("  init %s\n", pkg.Pkg.Path())
 	}
 	i.initState[pkg] = 1
+	if i.px.inInit == 0 {
+		// Per-package handling of nested initialisers (every imported package initialised on its own
+		// terms, Scheme-building ones tolerated) costs a lot per path; it is switched on only for
+		// harness packages whose own initialiser needs it (pkg/scheduler/cache: AddToScheme in init).
+		i.splitInits = strings.HasSuffix(pkg.Pkg.Path(), "/pkg/scheduler/cache")
+	}
 	if init := pkg.Func("init"); init != nil && init.Blocks != nil {
 		saved := i.px.inInit
 		i.px.inInit++
@@ -637,7 +644,7 @@ func fnPkg(fn *ssa.Function) *ssa.Package {
 // callSSA interprets a call to function fn with arguments args,
 // and lexical environment env, returning its result.
 func callSSA(i *interpreter, caller *frame, callpos token.Pos, fn *ssa.Function, args []value, env []value) value {
-	if caller != nil && fn.Name() == "init" && fn.Pkg != nil && fn == fn.Pkg.Func("init") && caller.fn != fn {
+	if i.splitInits && caller != nil && fn.Name() == "init" && fn.Pkg != nil && fn == fn.Pkg.Func("init") && caller.fn != fn {
 		// a package initialiser calling the initialiser of an imported package: initialise that
 		// package on its own terms (failure of a reflection-heavy initialiser is recorded per package)
 		i.ensureInit(fn.Pkg)
